@@ -47,8 +47,8 @@ var decoderFns = [][3]string{{"banderwagon", "Element", "setBytes"}, {"banderwag
 func init() {
 	Props["C12"] = spec("static decision of the structural clauses of concurrent use (DESIGN 4 C12).",
 		RuleG1, RuleG2, RuleG3, RuleG4, RuleG5, RuleG6, RuleG7, RuleG8, RuleW1(nil, 90), RuleW2(30), RuleW3)
-	Props["C20"] = spec("static decision of the synchronisation clauses of the executor only (DESIGN 4 C20): Add before each spawn, one spawn per iteration, work called exactly once with per-iteration range cells, Done after work, Wait post-dominating entry (G7), no parent store to captured cells (G5), callers size result channels by the same value they pass as the worker limit (G3). Of the range arithmetic only non-emptiness is decided: a difference-bound analysis shows end - start >= 1 for every range handed to work (I1). Disjoint cover of [0,n), end <= n and at most min(n,m) invocations are NOT decided.",
-		RuleG7, RuleG5, RuleG3, RuleI1, RuleI2)
+	Props["C20"] = spec("static decision of the synchronisation clauses of the executor only (DESIGN 4 C20): Add before each spawn, one spawn per iteration, work called exactly once with per-iteration range cells, Done after work, Wait post-dominating entry (G7), no parent store to captured cells (G5), callers size result channels by the same value they pass as the worker limit (G3). The range arithmetic is decided on the structure of the task loop: a difference-bound analysis shows end - start >= 1 for every range handed to work (I1); one iteration executed symbolically on every path shows that the first range starts at 0, each range ends where the next starts, lengths are base or base+1, the longer ranges are handed out E times and T*base + E = n with E a division remainder or 0 (S2) - together: disjoint contiguous cover of [0,n) for n >= 0 and a worker count >= 1. That at most min(n,m) invocations are started is decided only as far as G7's task-count clause goes.",
+		RuleG7, RuleG5, RuleG3, RuleI1, RuleI2, RuleS2)
 	Props["C03"] = spec("static decision of the structural determinism/conformance clauses (DESIGN 4 C03): the IPA vector helpers (V1-V4), the precomputed weight tables (M7), the table-based commitment (M5, M9, K7) and Cmp (O1) as shared mechanisms; Fiat-Shamir labels and absorb order equal the specification on both sides (F1,F2), openings absorbed with their own index (F4), canonical encodings absorbed and transcript chaining (F7), serialisation layout D|L|R|a with canonical encoders (D5), results merged in completion order only by commutative-associative combiners, every worker result merged exactly once (G4,G2,G3), no call writes state a later call reads (W2,W3). Byte-for-byte equality with an independent implementation is not decided.",
 		bundle([]Rule{RuleF1F2(), RuleF4(), RuleF7, RuleD5, RuleG4, RuleG2, RuleG3, RuleW2(30), RuleW3, RulePW, RuleG1In("BatchNormalize", 1), RuleU1, RuleW1(nameHas("banderwagon.BatchNormalize", "multiproof.CreateMultiProof"), 3), RuleW4}, challengeScalarDeps, bvectorDeps, weightsDeps, vectorDeps, commitDeps)...)
 	Props["C01"] = spec("static decision of the structural completeness clauses (DESIGN 4 C01): the IPA vector helpers (V1-V4), the precomputed weight tables (M7: every position written), the table-based commitment (M5, M9, K7) and Cmp (O1) as shared mechanisms; prover and verifier replay the specified Fiat-Shamir schedule (F1,F2); openings processed as aligned triples with their own index (F4); shape checks dominate (F6); the worker split covers every opening: ceil-division batches, clipped ranges, one receive per worker (S1,G2,G3); every array is indexed by an index of its own domain, in particular the inverse denominators by compacted position (M6). The algebra of the protocol is not decided.",
@@ -70,11 +70,11 @@ func init() {
 	Props["C19"] = spec("static decision of the structural clauses (DESIGN 4 C19): all-or-nothing normalisation (U1); written elements are the de-duplicated ones, filled from all inputs, inverses paired by index (U2,U4,G1); batch and single encoders agree in sign convention and normalisation (E2,E3), uncompressed layout x@0,y@32 in both and in the trusted decoder (U3); batch and single map-to-field agree (N1,N2); inputs other than the normalised elements not written (W1); executor use joined before return (G2). Value equality position by position is not decided.",
 		RuleU1, RuleU3, RuleE2E3, RuleN1N2, RuleBatchIdx, RuleG1, RuleG2, RuleZ1, RuleI1, RuleI2, RuleW1(nameHas("banderwagon.Batch", "banderwagon.ElementsToBytes", "banderwagon.Element).BytesUncompressedTrusted", "banderwagon.Element).Normalize", "banderwagon.batch"), 8))
 	Props["C09"] = spec("static decision of the structural clauses of the variable-base MSM (DESIGN 4 C09): points and scalars stay paired through every wrapper, split and chunk (M1); Montgomery flag and task count reach the inner routine (M2); every selectable window width has an implementation with matching constants and array sizes (M3); every chunk is produced exactly once and consumed exactly once, chunk j through channel j (M4); bucket/table indexes v-1 are guarded (M5); length mismatch is an error before any slicing (LG); the sizing loop terminates (T1); goroutines write only their own slots, are joined, channels fit (G1-G5); inputs are not written (W1). The bucket arithmetic and digit recoding are not decided.",
-		RuleM1, RuleM1b, RuleM2, RuleM3, RuleM4, RuleM5, RuleM8, RuleM10, RuleT1, RuleD9(msmOutputs), RuleLG([][4]string{{"bandersnatch", "MultiExp", "points", "scalars"}, {"ipa", "commit", "groupElements", "polynomial"}}), RuleG1, RuleG2, RuleG3, RuleG4, RuleG5, RuleW1(nameHas("bandersnatch.msm", "bandersnatch.MultiExp", "bandersnatch.partitionScalars", "banderwagon.Element).MultiExp", "ipa.MultiScalar", "ipa.commit", "batchProjToAffine"), 30))
+		RuleM1, RuleM1b, RuleM2, RuleM3, RuleM4, RuleM5, RuleM8, RuleM10, RuleT1, RuleD9(msmOutputs), RuleLG([][4]string{{"bandersnatch", "MultiExp", "points", "scalars"}, {"ipa", "commit", "groupElements", "polynomial"}}), RuleLGOwn([][5]string{{"banderwagon", "Element", "MultiExp", "points", "scalars"}}), RuleG1, RuleG2, RuleG3, RuleG4, RuleG5, RuleW1(nameHas("bandersnatch.msm", "bandersnatch.MultiExp", "bandersnatch.partitionScalars", "banderwagon.Element).MultiExp", "ipa.MultiScalar", "ipa.commit", "batchProjToAffine"), 30))
 	Props["C15"] = spec("static decision of the structural clauses of scalar-field arithmetic (DESIGN 4 C15): Cmp and Equal read limbs only in same-index comparisons and are right on all 81 limb orderings (O1); every modulus-derived constant equals the value computed from the decimal modulus (K1), limb k meets limb k in every carry chain, cascade and Montgomery round (K2), operands are not written (W1). Numeric correctness of the algorithms is not decided.",
 		RuleK1K2, RuleAsm, RuleZ1, RuleO1, RuleT2, RuleW5, RuleW1(nameHas("bandersnatch/fr."), 40))
-	Props["C06"] = spec("static decision of the decoder's structural clauses (DESIGN 4 C06): no untrusted entry point reaches an unchecked or reducing decoder (D1, D3); on the untrusted path success is dominated by exact length, canonical x, on-curve, subgroup test on the same x, and y-bytes equality (D2); the subgroup decision accepts exactly Legendre=+1 of 1-a*x^2 (D4); errors are propagated (D7); decoders do not write their buffer (W1). Square-root and Legendre arithmetic not decided.",
-		RuleD1, RuleD2D3, RuleD5Point, RuleD11(atomicDecoders), RuleD4("legendre"), RuleD9(pointSetters), RuleD7(decoderFns, 6), RuleD8([][3]string{{"banderwagon", "Element", "setBytes"}, {"banderwagon", "Element", "SetBytesUncompressed"}}), RuleW1(nameHas("banderwagon.Element).SetBytes", "banderwagon.Element).setBytes", "common.Read", "subgroupCheck", "GetPointFromX", "computeY", "SqrtPrecomp"), 8))
+	Props["C06"] = spec("static decision of the decoder's structural clauses (DESIGN 4 C06): no untrusted entry point reaches an unchecked or reducing decoder (D1, D3); on the untrusted path success is dominated by exact length, canonical x, on-curve, subgroup test on the same x, and y-bytes equality (D2), and the exported validating decoder SetBytes is nothing but that decode: success only behind its nil-error edge, no other write of the receiver (D12); the subgroup decision accepts exactly Legendre=+1 of 1-a*x^2 (D4); errors are propagated (D7); decoders do not write their buffer (W1). Square-root and Legendre arithmetic not decided.",
+		RuleD1, RuleD2D3, RuleD12, RuleD5Point, RuleD11(atomicDecoders), RuleD4("legendre"), RuleD9(pointSetters), RuleD7(decoderFns, 6), RuleD8([][3]string{{"banderwagon", "Element", "setBytes"}, {"banderwagon", "Element", "SetBytesUncompressed"}}), RuleW1(nameHas("banderwagon.Element).SetBytes", "banderwagon.Element).setBytes", "common.Read", "subgroupCheck", "GetPointFromX", "computeY", "SqrtPrecomp"), 8))
 	Props["C10"] = spec("static decision of the (de)serialisation structure (DESIGN 4 C10): reader and writer agree on field order, counts and encoding kinds and with the protocol constants (D5); every point goes through the validating decoder and the scalar through the canonical one whose decision accepts exactly values < r (D1, D4); the EOF probe constrains the byte count (D6); every error on the read and write paths is tested and returned (D7); Write does not modify the proof (W1). Value-level round trip not decided.",
 		RuleD1, RuleD4("canonical"), RuleD5, RuleD6, RuleG6, RuleD7(serdeFns, 9), RuleD8([][3]string{{"", "MultiProof", "Read"}, {"ipa", "IPAProof", "Read"}}), RuleW1(nameHas("MultiProof).", "IPAProof).", "common.Read"), 8))
 	Props["C16"] = spec("static decision of the scalar-encoding structure (DESIGN 4 C16): no decoder writes the slice it is given (W1); the canonical decoder accepts exactly Cmp(value, r) = -1 on the integer built from the input (D4); SetBigInt's fast path / zero / reduce decision is exhaustive and correct on all 9 outcomes (D4). Mod and Montgomery arithmetic not decided.",
